@@ -173,9 +173,46 @@ Fixpoint verbatim_blocks (p : list stmt) : list symbol :=
   | SEq _ _ _ _ :: r => verbatim_blocks r
   end.
 
-(* guard of finding #19: no name is used both as a function and as anything else *)
-Definition fn_name_of (ts : list term) (x : string) : bool := mentioned_as TFunction x ts.
-Definition other_name_of (ts : list term) (x : string) : bool :=
-  existsb (fun t => named x t && negb (type_eqb (ttype t) TFunction)) ts.
-Definition fn_disjoint (ts : list term) : bool :=
-  forallb (fun t => negb (fn_name_of ts (tname t) && other_name_of ts (tname t))) ts.
+(* guard of finding #19: inside one statement no call `x(` comes after a non-function mention of the same name x
+   (there the FUNCTION symbol overwrites the variable / parameter / error symbol in place) *)
+Definition nonfn_named (x : string) (t : term) : bool :=
+  named x t && symbol_term t && negb (type_eqb (ttype t) TFunction).
+Fixpoint fn_ok (pre ts : list term) : bool :=
+  match ts with
+  | [] => true
+  | t :: r => (if type_eqb (ttype t) TFunction then negb (existsb (nonfn_named (tname t)) pre) else true)
+              && fn_ok (pre ++ [t])%list r
+  end.
+Definition stmt_fn_ok (st : stmt) : bool :=
+  match st with
+  | SEq l r _ _ => fn_ok [] (map (replace_type TEndogenous) l ++ map (replace_type TExogenous) r)%list
+  | SVerb _ _ => true
+  end.
+Definition fn_guard (p : list stmt) : bool := forallb stmt_fn_ok p.
+
+(* terms as process_term_match builds them: index None exactly for FUNCTION and KEYWORD terms *)
+Definition wf_term_b (t : term) : bool :=
+  match ttype t with
+  | TVerbatim => true
+  | TFunction | TKeyword => match tindex t with None => true | Some _ => false end
+  | _ => match tindex t with None => false | Some _ => true end
+  end.
+Definition wf_stmt (st : stmt) : bool :=
+  match st with
+  | SEq l r _ _ => forallb wf_term_b l && forallb wf_term_b r
+  | SVerb _ _ => true
+  end.
+Definition wf_program (p : list stmt) : bool := forallb wf_stmt p.
+
+(* ---------- what the property says, read off the script ---------- *)
+Definition script_names (p : list stmt) : list string := first_occurrences (map tname (mentions p)).
+Definition is_endogenous (p : list stmt) (x : string) : bool := mentioned_as TEndogenous x (mentions p).
+Definition is_parameter (p : list stmt) (x : string) : bool := mentioned_as TParameter x (mentions p).
+Definition is_error (p : list stmt) (x : string) : bool := mentioned_as TError x (mentions p).
+(* exogenous otherwise: a variable (mentioned on some right-hand side) that no equation assigns *)
+Definition is_exogenous (p : list stmt) (x : string) : bool :=
+  mentioned_as TExogenous x (mentions p) && negb (mentioned_as TEndogenous x (mentions p)).
+Definition named_offsets (x : string) (ts : list term) : list Z := offsets (filter (named x) ts).
+(* deepest lag / furthest lead written anywhere in the script, as non-negative lengths *)
+Definition script_lags (p : list stmt) : Z := (- min0 (offsets (mentions p)))%Z.
+Definition script_leads (p : list stmt) : Z := max0 (offsets (mentions p)).
